@@ -360,3 +360,66 @@ Proof.
       replace (c <? b) with false by lia.
       apply (IH cs b c l r x); auto; lia.
 Qed.
+
+(* ---------- shape of the compiled table; the iterator agrees with lookup ---------- *)
+Lemma merge_head : forall ps lb lc,
+  above lb (map fst ps) ->
+  exists h t, map fst (merge lb lc ps) = h :: t /\ lb <= h /\ above h t.
+Proof.
+  induction ps as [|[b x] ps IH]; intros lb lc Ha; cbn [merge].
+  - exists lb, []. cbn. repeat split; auto. lia.
+  - cbn [map fst above] in Ha. destruct Ha as [Ha1 Ha2]. destruct (x =? lc).
+    + destruct (IH b lc Ha2) as (h & t & E & Hle & Hab). exists h, t. repeat split; auto. lia.
+    + destruct (IH b x Ha2) as (h & t & E & Hle & Hab). exists lb, (h :: t). cbn [map fst]. rewrite E.
+      split; [reflexivity|]. split; [lia|]. cbn [above]. split; [lia|exact Hab].
+Qed.
+
+Lemma compile_shape rs cc : wf rs -> compile rs = Some cc ->
+  ssorted (boundaries cc) /\ length (categories cc) = S (length (boundaries cc)).
+Proof.
+  intros Hwf. unfold compile. destruct rs as [|r0 rs0].
+  - intros H; inversion H; subst. cbn. auto.
+  - set (rs := r0 :: rs0) in *.
+    pose proof (collect_sorted rs) as Hs.
+    rewrite apply_all_pointwise; auto.
+    2:{ intros r Hr. apply collect_in. exists r; auto. }
+    2:{ rewrite map_length. reflexivity. }
+    assert (Hin0 : In (rb r0) (collect_boundaries rs)) by (apply collect_in; exists r0; cbn; auto).
+    destruct (collect_boundaries rs) as [|b0 bs] eqn:Eb; [contradiction|].
+    rewrite map2_const0. cbn [map]. intros H; inversion H; subst cc; clear H. cbn [boundaries categories].
+    split.
+    + cbn in Hs.
+      destruct (merge_head (combine bs (map (cat_from 0 rs) bs)) b0 DEFAULT) as (h & t & E & _ & Hab).
+      { rewrite map_fst_combine by (rewrite map_length; reflexivity). exact Hs. }
+      rewrite E. cbn. exact Hab.
+    + rewrite app_length, !map_length. cbn. lia.
+Qed.
+
+(* every range the iterator yields carries the classes that lookup reports inside it *)
+Theorem iter_agrees_with_lookup rs cc its l r x c :
+  wf rs -> compile rs = Some cc -> iter cc = Some its ->
+  In (l, r, x) its -> l <= c < r -> lookup cc c = x.
+Proof.
+  intros Hwf Hc Hit Hin Hr. destruct (compile_shape rs cc Hwf Hc) as [Hs Hl].
+  unfold lookup. unfold iter in Hit. destruct (boundaries cc) as [|b0 bs] eqn:Eb; [discriminate|]. rewrite <- Eb in *.
+  inversion Hit; subst its. apply (iter_aux_lookup (boundaries cc) (categories cc) 0 c l r x); auto; lia.
+Qed.
+
+(* the iterator panics exactly on the table of an empty definition list *)
+Theorem iter_none_iff_default rs cc : wf rs -> compile rs = Some cc -> (iter cc = None <-> rs = []).
+Proof.
+  intros Hwf Hc. unfold iter. split.
+  - destruct rs as [|r0 rs0]; [reflexivity|]. intros Hn. exfalso.
+    unfold compile in Hc. set (rs := r0 :: rs0) in *.
+    pose proof (collect_sorted rs) as Hs.
+    rewrite apply_all_pointwise in Hc; auto.
+    2:{ intros r Hr. apply collect_in. exists r; auto. }
+    2:{ rewrite map_length. reflexivity. }
+    assert (Hin0 : In (rb r0) (collect_boundaries rs)) by (apply collect_in; exists r0; cbn; auto).
+    destruct (collect_boundaries rs) as [|b0 bs] eqn:Eb; [contradiction|].
+    rewrite map2_const0 in Hc. cbn [map] in Hc. inversion Hc; subst cc; clear Hc. cbn [boundaries] in Hn.
+    destruct (map fst (merge b0 DEFAULT (combine bs (map (cat_from 0 rs) bs)))) eqn:E; [|discriminate].
+    apply (merge_nonempty b0 DEFAULT (combine bs (map (cat_from 0 rs) bs))).
+    destruct (merge b0 DEFAULT (combine bs (map (cat_from 0 rs) bs))); [reflexivity|discriminate].
+  - intros ->. cbn in Hc. inversion Hc; subst. reflexivity.
+Qed.
